@@ -51,7 +51,14 @@ func Dial(addr string) (*Ctl, error) {
 	return k, nil
 }
 
-func (k *Ctl) Close() { k.C.Close() }
+// Close resets the connection (SO_LINGER 0): no TIME_WAIT socket is left behind, so that hundreds of thousands of
+// short connections do not exhaust the ephemeral port range.
+func (k *Ctl) Close() {
+	if tc, ok := k.C.(*net.TCPConn); ok {
+		tc.SetLinger(0)
+	}
+	k.C.Close()
+}
 
 // Secured says whether this side encrypts.
 func (k *Ctl) Secured() bool { return k.c2a != nil }
